@@ -19,8 +19,9 @@ import time
 import traceback
 
 HERE = os.path.dirname(os.path.dirname(os.path.abspath(__file__)))
-REPLAY_DIR = os.path.join(HERE, "replays")
-EVIDENCE_DIR = os.path.join(HERE, "evidence")
+# (the overrides keep runs against scratch copies of the repository from replacing the real evidence)
+REPLAY_DIR = os.environ.get("VERIF_REPLAY_DIR") or os.path.join(HERE, "replays")
+EVIDENCE_DIR = os.environ.get("VERIF_EVIDENCE_DIR") or os.path.join(HERE, "evidence")
 WORK_DIR = os.path.join(HERE, ".work")
 
 MAX_SAMPLES = 4
